@@ -1,4 +1,6 @@
+mod cli;
 mod engine;
+mod io;
 mod gen;
 mod model;
 mod props;
@@ -125,6 +127,7 @@ fn shard(a: &[String]) {
     engine::install_panic_hook();
     let known: Vec<String> = load_known().into_iter().filter(|k| k.prop == prop.id).map(|k| k.sig).collect();
     let mut ctx = engine::Ctx::new(prop.id, tier, seed, i, n, workdir, known);
+    ctx.run_regress(prop.replay);
     (prop.run)(&mut ctx);
     let so = ctx.finish();
     std::fs::write(&out, serde_json::to_vec(&so).unwrap()).unwrap();
